@@ -209,6 +209,373 @@ Resolved = Union[FunctionInfo, ClassInfo, Module, Ext, Tuple[str, Module, str], 
 # ----------------------------------------------------------------------------- program
 
 
+def _expand_private_contextmanagers(parsed) -> None:
+    """`with _cm(a, b) [as v]: BODY` where `_cm` is a new private generator decorated with `contextlib.contextmanager` that yields exactly once, as a
+    statement: the generator's body with BODY at the place of the `yield` (and `v` bound to the yielded value) - which is how the decorator runs
+    it: an exception of BODY is raised at the yield, where the generator's own try / except / finally deals with it; a generator that handles the
+    exception without re-raising suppresses it, as the expanded try statement does.  Parameters are replaced by the (plain) arguments, `*args` by the
+    tuple of the remaining ones.  Used from another module, the names the generator body needs are imported there."""
+    import copy
+    from .renames import reference
+    ref_f, _ref_g = reference()
+    cms = {}  # (module short, name) -> (FunctionDef, tree)
+    for name, _path, _src, tree, _is_pkg in parsed:
+        module = name.replace(PKG + ".", "", 1) if name != PKG else ""
+        for st in tree.body:
+            if isinstance(st, ast.FunctionDef) and st.name.startswith("_") and f"{module}:{st.name}" not in ref_f and len(st.decorator_list) == 1 \
+                    and ast.unparse(st.decorator_list[0]) in ("contextmanager", "contextlib.contextmanager"):
+                ys = [x for x in ast.walk(st) if isinstance(x, (ast.Yield, ast.YieldFrom))]
+                if len(ys) != 1 or isinstance(ys[0], ast.YieldFrom) or any(isinstance(x, (ast.Return, ast.FunctionDef, ast.Lambda, ast.Global, ast.Nonlocal)) for b in st.body for x in ast.walk(b)):
+                    continue
+                a = st.args
+                if a.kwarg or a.kwonlyargs or a.posonlyargs or any(not isinstance(d, ast.Constant) for d in a.defaults):
+                    continue
+                # the yield is an expression statement, not inside a loop
+                ok = [False]
+
+                def find(stmts, in_loop):
+                    for s_ in stmts:
+                        if isinstance(s_, ast.Expr) and s_.value is ys[0]:
+                            ok[0] = not in_loop
+                        for fld in ("body", "orelse", "finalbody"):
+                            b = getattr(s_, fld, None)
+                            if isinstance(b, list) and b and isinstance(b[0], ast.stmt):
+                                find(b, in_loop or isinstance(s_, (ast.For, ast.While)))
+                        if isinstance(s_, ast.Try):
+                            for h in s_.handlers:
+                                find(h.body, in_loop)
+                find(st.body, False)
+                if ok[0]:
+                    cms[(module, st.name)] = (st, tree, _is_pkg)
+    if not cms:
+        return
+
+    def abs_module(module: str, is_pkg: bool, node: ast.ImportFrom) -> Optional[str]:
+        if node.level == 0:
+            return node.module
+        base = module.split(".") if module else []
+        if not is_pkg and base:
+            base = base[:-1]
+        if node.level > 1:
+            base = base[: len(base) - (node.level - 1)]
+        if node.module:
+            base = base + node.module.split(".")
+        return ".".join([PKG] + base)
+
+    for name, _path, _src, tree, is_pkg in parsed:
+        module = name.replace(PKG + ".", "", 1) if name != PKG else ""
+        visible = {}
+        for st in tree.body:
+            if isinstance(st, ast.FunctionDef) and (module, st.name) in cms:
+                visible[st.name] = (module, st.name)
+            elif isinstance(st, ast.ImportFrom):
+                src = abs_module(module, is_pkg, st)
+                if src and (src == PKG or src.startswith(PKG + ".")):
+                    sm = src[len(PKG) + 1:]
+                    for al in st.names:
+                        if (sm, al.name) in cms:
+                            visible[al.asname or al.name] = (sm, al.name)
+        if not visible:
+            continue
+        bound_here = set()
+        for st in tree.body:
+            if isinstance(st, (ast.Import, ast.ImportFrom)):
+                bound_here |= {(al.asname or al.name).split(".")[0] for al in st.names}
+            elif isinstance(st, (ast.FunctionDef, ast.ClassDef, ast.AsyncFunctionDef)):
+                bound_here.add(st.name)
+            elif isinstance(st, (ast.Assign, ast.AnnAssign)):
+                for t_ in (st.targets if isinstance(st, ast.Assign) else [st.target]):
+                    bound_here |= {x.id for x in ast.walk(t_) if isinstance(x, ast.Name)}
+        new_imports: List[ast.stmt] = []
+        counter = [0]
+
+        def expand(w: ast.With):
+            if len(w.items) != 1:
+                return None
+            it = w.items[0]
+            c = it.context_expr
+            if not (isinstance(c, ast.Call) and isinstance(c.func, ast.Name) and c.func.id in visible and not c.keywords):
+                return None
+            if it.optional_vars is not None and not isinstance(it.optional_vars, ast.Name):
+                return None
+            g, gtree, g_is_pkg = cms[visible[c.func.id]]
+            gmod = visible[c.func.id][0]
+            if any(isinstance(x, ast.Starred) for x in c.args):
+                return None
+            if not all(isinstance(x, (ast.Name, ast.Constant, ast.Attribute)) for x in c.args):
+                return None
+            pos = [x.arg for x in g.args.args]
+            if len(c.args) > len(pos) and g.args.vararg is None:
+                return None
+            m: Dict[str, ast.expr] = {}
+            for p_, a_ in zip(pos, c.args):
+                m[p_] = a_
+            nd = len(g.args.defaults)
+            for i_, p_ in enumerate(pos):
+                if p_ not in m:
+                    j = i_ - (len(pos) - nd)
+                    if j < 0:
+                        return None
+                    m[p_] = g.args.defaults[j]
+            if g.args.vararg is not None:
+                m[g.args.vararg.arg] = ast.Tuple(elts=[copy.deepcopy(x) for x in c.args[len(pos):]], ctx=ast.Load())
+            # names of the generator body: its locals are renamed apart, its globals must mean the same here
+            counter[0] += 1
+            glocals = {x.id for b in g.body for x in ast.walk(b) if isinstance(x, ast.Name) and isinstance(x.ctx, ast.Store)} | \
+                      {h.name for b in g.body for h in ast.walk(b) if isinstance(h, ast.ExceptHandler) and h.name}
+            ren = {n_: f"{n_}__cm{counter[0]}" for n_ in glocals}
+            import builtins as _bi
+            free = {x.id for b in g.body for x in ast.walk(b) if isinstance(x, ast.Name) and isinstance(x.ctx, ast.Load)} - glocals - set(m) - set(dir(_bi))
+            if gmod != module:
+                for nm in sorted(free):
+                    if nm in bound_here:
+                        continue  # (assumed to denote the same thing: both modules import it from the package's own modules)
+                    found = None
+                    for st_ in gtree.body:
+                        if isinstance(st_, ast.ImportFrom) and any((al.asname or al.name) == nm for al in st_.names):
+                            src = abs_module(gmod, g_is_pkg, st_)
+                            al = [al for al in st_.names if (al.asname or al.name) == nm][0]
+                            found = ast.ImportFrom(module=src, names=[ast.alias(name=al.name, asname=al.asname)], level=0)
+                        elif isinstance(st_, ast.Import) and any((al.asname or al.name.split(".")[0]) == nm for al in st_.names):
+                            al = [al for al in st_.names if (al.asname or al.name.split(".")[0]) == nm][0]
+                            found = ast.Import(names=[ast.alias(name=al.name, asname=al.asname)])
+                    if found is None:
+                        return None
+                    new_imports.append(found)
+                    bound_here.add(nm)
+
+            class S(ast.NodeTransformer):
+                def visit_Name(self, n: ast.Name):
+                    if n.id in m and isinstance(n.ctx, ast.Load):
+                        return ast.copy_location(copy.deepcopy(m[n.id]), n)
+                    if n.id in ren:
+                        return ast.copy_location(ast.Name(id=ren[n.id], ctx=n.ctx), n)
+                    return n
+
+                def visit_ExceptHandler(self, h: ast.ExceptHandler):
+                    self.generic_visit(h)
+                    if h.name and h.name in ren:
+                        h.name = ren[h.name]
+                    return h
+            gb = [copy.deepcopy(b) for b in g.body if not (isinstance(b, ast.Expr) and isinstance(b.value, ast.Constant))]
+            placed = [False]
+
+            def put(stmts):
+                for k, s_ in enumerate(stmts):
+                    if isinstance(s_, ast.Expr) and isinstance(s_.value, ast.Yield):
+                        pre: List[ast.stmt] = []
+                        if it.optional_vars is not None:
+                            val = s_.value.value if s_.value.value is not None else ast.Constant(value=None)
+                            pre = [ast.copy_location(ast.Assign(targets=[copy.deepcopy(it.optional_vars)], value=S().visit(val), type_comment=None), w)]
+                        stmts[k:k + 1] = pre + list(w.body)
+                        placed[0] = True
+                        return True
+                    for fld in ("body", "orelse", "finalbody"):
+                        b = getattr(s_, fld, None)
+                        if isinstance(b, list) and b and isinstance(b[0], ast.stmt) and put(b):
+                            return True
+                    if isinstance(s_, ast.Try):
+                        for h in s_.handlers:
+                            if put(h.body):
+                                return True
+                return False
+            gb = [S().visit(b) for b in gb]
+            if not put(gb) or not placed[0]:
+                return None
+            for b in gb:
+                ast.copy_location(b, w)
+                ast.fix_missing_locations(b)
+            return gb
+
+        def walk(stmts: List[ast.stmt]) -> List[ast.stmt]:
+            out: List[ast.stmt] = []
+            for st in stmts:
+                for fld in ("body", "orelse", "finalbody"):
+                    b = getattr(st, fld, None)
+                    if isinstance(b, list) and b and isinstance(b[0], ast.stmt):
+                        setattr(st, fld, walk(b))
+                if isinstance(st, ast.Try):
+                    for h in st.handlers:
+                        h.body = walk(h.body)
+                if isinstance(st, ast.With):
+                    r = expand(st)
+                    if r is not None:
+                        out.extend(r)
+                        continue
+                out.append(st)
+            return out
+        tree.body = walk(tree.body)
+        if new_imports:
+            at = 0
+            for i_, st in enumerate(tree.body):
+                if (isinstance(st, ast.ImportFrom) and st.module == "__future__") or (isinstance(st, ast.Expr) and isinstance(st.value, ast.Constant) and i_ == 0):
+                    at = i_ + 1
+            for im in new_imports:
+                ast.copy_location(im, tree.body[0])
+                ast.fix_missing_locations(im)
+            tree.body[at:at] = new_imports
+
+
+def _expand_private_decorators(parsed) -> None:
+    """A new private decorator (or decorator factory called with constants) of the textbook shape
+
+        def _deco(<factory parameters>):            # optional outer level
+            def decorator(func):
+                @functools.wraps(func)               # optional
+                def wrapper(<the decorated function's own parameters>):
+                    <PRE>
+                    return func(<the same parameters>)      # or `func(...)` as the last statement, also inside try / with
+                return wrapper
+            return decorator
+
+    applied as the only decorator of a function of the same module whose parameters line up with `wrapper`'s: the function becomes PRE followed by
+    its own body at the place of the call, with the factory arguments written in - which is what calling it does.  Anything else (a wrapper that
+    uses the result, calls func twice or conditionally in a loop, *args pass-through that PRE inspects, stacked decorators) is left alone."""
+    import copy
+    from .renames import reference
+    ref_f, _ref_g = reference()
+
+    def analyse(d: ast.FunctionDef):
+        """-> (factory params, func param name, wrapper FunctionDef) or None"""
+        if d.decorator_list:
+            return None
+        body = [st for st in d.body if not (isinstance(st, ast.Expr) and isinstance(st.value, ast.Constant))]
+        if len(body) != 2 or not isinstance(body[0], ast.FunctionDef) or not (isinstance(body[1], ast.Return) and isinstance(body[1].value, ast.Name) and body[1].value.id == body[0].name):
+            return None
+        inner = body[0]
+        a = d.args
+        if a.vararg or a.kwarg or a.kwonlyargs or a.posonlyargs or a.defaults:
+            return None
+        ib = [st for st in inner.body if not (isinstance(st, ast.Expr) and isinstance(st.value, ast.Constant))]
+        if len(ib) == 2 and isinstance(ib[0], ast.FunctionDef) and isinstance(ib[1], ast.Return) and isinstance(ib[1].value, ast.Name) and ib[1].value.id == ib[0].name \
+                and len(inner.args.args) == 1 and not inner.decorator_list:
+            # factory level
+            ia = inner.args
+            if ia.vararg or ia.kwarg or ia.kwonlyargs or ia.posonlyargs or ia.defaults:
+                return None
+            return [x.arg for x in a.args], inner.args.args[0].arg, ib[0]
+        if len(a.args) == 1:
+            return [], a.args[0].arg, inner
+        return None
+
+    def wrapper_ok(w: ast.FunctionDef, fname: str):
+        """the one call of func in w: (statement list holding it, index, 'return' | 'expr'), or None"""
+        decs = [ast.unparse(x) for x in w.decorator_list]
+        if any(not (x.endswith(f"wraps({fname})")) for x in decs):
+            return None
+        wa = w.args
+        if wa.vararg or wa.kwarg or wa.kwonlyargs or wa.posonlyargs or wa.defaults:
+            return None
+        uses = [x for x in ast.walk(ast.Module(body=w.body, type_ignores=[])) if isinstance(x, ast.Name) and x.id == fname]
+        if len(uses) != 1:
+            return None
+        found = []
+
+        def scan(stmts, in_loop):
+            for i, st in enumerate(stmts):
+                if isinstance(st, (ast.Return, ast.Expr)) and isinstance(st.value, ast.Call) and isinstance(st.value.func, ast.Name) and st.value.func.id == fname:
+                    found.append((stmts, i, "return" if isinstance(st, ast.Return) else "expr", in_loop, st.value))
+                for fld in ("body", "orelse", "finalbody"):
+                    b = getattr(st, fld, None)
+                    if isinstance(b, list) and b and isinstance(b[0], ast.stmt):
+                        scan(b, in_loop or isinstance(st, (ast.For, ast.While)))
+                if isinstance(st, ast.Try):
+                    for h in st.handlers:
+                        scan(h.body, in_loop)
+        scan(w.body, False)
+        if len(found) != 1 or found[0][3]:
+            return None
+        stmts, i, kind, _l, call = found[0]
+        params = [x.arg for x in wa.args]
+        if call.keywords or [ast.unparse(x) for x in call.args] != params:
+            return None
+        if kind == "expr" and i != len(stmts) - 1:
+            return None
+        return stmts, i, kind
+
+    for name, _path, _src, tree, _is_pkg in parsed:
+        module = name.replace(PKG + ".", "", 1) if name != PKG else ""
+        decos = {}
+        for st in tree.body:
+            if isinstance(st, ast.FunctionDef) and st.name.startswith("_") and f"{module}:{st.name}" not in ref_f:
+                r = analyse(st)
+                if r is not None and wrapper_ok(r[2], r[1]) is not None:
+                    decos[st.name] = r
+        if not decos:
+            continue
+        for F in [x for x in ast.walk(tree) if isinstance(x, ast.FunctionDef)]:
+            if len(F.decorator_list) != 1:
+                continue
+            d = F.decorator_list[0]
+            if isinstance(d, ast.Call) and isinstance(d.func, ast.Name) and d.func.id in decos and not d.keywords and all(isinstance(x, ast.Constant) for x in d.args):
+                fparams, fname, w = decos[d.func.id]
+                if len(d.args) != len(fparams):
+                    continue
+                consts = dict(zip(fparams, d.args))
+            elif isinstance(d, ast.Name) and d.id in decos and not decos[d.id][0]:
+                fparams, fname, w = decos[d.id]
+                consts = {}
+            else:
+                continue
+            fa = F.args
+            if fa.vararg or fa.kwarg or fa.kwonlyargs or fa.posonlyargs:
+                continue
+            wp = [x.arg for x in w.args.args]
+            fp = [x.arg for x in fa.args]
+            if len(wp) != len(fp):
+                continue
+            w2 = copy.deepcopy(w)
+            loc = wrapper_ok(w2, fname)
+            if loc is None:
+                continue
+            stmts, i, kind = loc
+            fbody = [st for st in F.body]
+            if fbody and isinstance(fbody[0], ast.Expr) and isinstance(fbody[0].value, ast.Constant) and isinstance(fbody[0].value.value, str) and len(fbody) > 1:
+                fbody = fbody[1:]  # the docstring
+            has_value_return = any(isinstance(x, ast.Return) and x.value is not None for st in fbody for x in ast.walk(st))
+            if kind == "expr" and has_value_return:
+                continue
+            if any(isinstance(x, (ast.Yield, ast.YieldFrom, ast.Await)) for st in fbody for x in ast.walk(st)):
+                continue
+            # names: wrapper parameters -> the function's own; factory parameters -> the constants; wrapper locals must not meet the function's names
+            ren = dict(zip(wp, fp))
+            wlocals = {x.id for st in w2.body for x in ast.walk(st) if isinstance(x, ast.Name) and isinstance(x.ctx, ast.Store)}
+            fnames = {x.id for st in fbody for x in ast.walk(st) if isinstance(x, ast.Name)} | set(fp)
+            if wlocals & fnames:
+                continue
+
+            class S(ast.NodeTransformer):
+                def visit_Name(self, n: ast.Name):
+                    if n.id in consts and isinstance(n.ctx, ast.Load):
+                        return ast.copy_location(copy.deepcopy(consts[n.id]), n)
+                    if n.id in ren:
+                        return ast.copy_location(ast.Name(id=ren[n.id], ctx=n.ctx), n)
+                    return n
+            stmts[i:i + 1] = [ast.Pass()]  # placeholder, identity kept below
+            marker = stmts[i]
+            new_body = [S().visit(st) for st in w2.body]
+
+            def put(lst) -> bool:
+                for k, st in enumerate(lst):
+                    if st is marker:
+                        lst[k:k + 1] = fbody
+                        return True
+                    for fld in ("body", "orelse", "finalbody"):
+                        b = getattr(st, fld, None)
+                        if isinstance(b, list) and b and isinstance(b[0], ast.stmt) and put(b):
+                            return True
+                    if isinstance(st, ast.Try):
+                        for h in st.handlers:
+                            if put(h.body):
+                                return True
+                return False
+            if not put(new_body):
+                continue
+            F.body = new_body
+            F.decorator_list = []
+            ast.fix_missing_locations(F)
+
+
 def _push_down_new_bases(parsed) -> None:
     """A new private class put between a class of the reference tree and its base ("pull up method": `class _RSASignatureAlgModel(JWSAlgModel)` now
     holds sign / verify of RSAAlgModel and RSAPSSAlgModel): the methods and class attributes the reference tree knows on the subclass, and that the
@@ -468,6 +835,8 @@ class Program:
         _propagate_function_aliases(parsed)
         _expand_partials(parsed)
         _push_down_new_bases(parsed)
+        _expand_private_decorators(parsed)
+        _expand_private_contextmanagers(parsed)
         # method names defined in more than one class anywhere in the package cannot be resolved through `self` by the inliner
         counts: Dict[str, int] = {}
         for _n, _p, _s, tree, _k in parsed:
@@ -568,6 +937,9 @@ class Program:
             try:
                 tree2, inl2 = inline_new_helpers(tree, short(name), ambiguous, pkg_funcs, pkg_meths, is_pkg, imported | elsewhere, pkg_bindings, self_ambiguous)
             except Exception:
+                if os.environ.get("JV_DEBUG_INLINE"):
+                    import traceback
+                    traceback.print_exc()
                 tree2, inl2 = tree, []
             if [x for x in inl2 if not x.startswith("-")]:
                 self.inlined.setdefault(name, []).extend(x for x in inl2 if x not in self.inlined.get(name, []))
